@@ -311,3 +311,73 @@ class ResolverResolve(Contract):
 
     def frame_ok(self, I, inp, obj, name):
         return False
+
+
+@register
+class ResolvePipeline(Contract):
+    """ProcessingPipelineResolver.resolve_pipeline: a registered pipeline object is returned as it is; a registered FACTORY is called on
+    every resolution (each result gets a pipeline of its own: + hands the items of its operands over to the sum, so a pipeline object
+    handed out twice would be emptied of its binding by the second use) and the registry is left as it is; the backend check applies to the
+    resolved pipeline; an unknown name that is no readable file is SigmaPipelineNotFoundError"""
+    id = "C14.ProcessingPipelineResolver.resolve_pipeline"
+    target = "sigma.processing.resolver:ProcessingPipelineResolver.resolve_pipeline"
+    props = ("C14", "C15")
+    cases = tuple((kind, tgt) for kind in ("object", "factory") for tgt in ("none", "allowed", "not-allowed", "unrestricted")) + (("unknown", "none"),)
+
+    def setup(self, E):
+        from pyvc.interp import PyRaise
+        E.builtins = dict(E.builtins)
+
+        def x_open(I, a, k):
+            raise PyRaise(ExcValue("FileNotFoundError", ("no such file",)))
+        E.builtins["open"] = NativeFn("open", x_open)
+
+    def args(self, I, case):
+        kind, tgt = case
+        made = []
+        allowed = frozenset() if tgt == "unrestricted" else frozenset({"splunk"})
+
+        def mk(tag):
+            p = mk_pipeline(I, tag)
+            p.fields["allowed_backends"] = allowed
+            return p
+        obj = mk("registered")
+
+        def factory(I2, a, k):
+            p = mk(f"made{len(made)}")
+            made.append(p)
+            return p
+        reg = {"other": mk("other")}
+        if kind == "object":
+            reg["p"] = obj
+        elif kind == "factory":
+            reg["p"] = NativeFn("factory", factory)
+        me = SObj(I.E.index.lookup("sigma.processing.resolver:ProcessingPipelineResolver"), {"pipelines": reg}, lazy=True)
+        target = {"none": None, "allowed": "splunk", "unrestricted": "elastic", "not-allowed": "elastic"}[tgt]
+        return {"self": me, "args": ["p", target], "reg": reg, "before": dict(reg), "obj": obj, "made": made, "case": case}
+
+    def before(self, I, inp):
+        # history: the same name was resolved once before (resolution is repeatable)
+        if inp["case"][0] == "factory" and inp["case"][1] != "not-allowed":
+            inp["first"] = I.call_function(I.E.index.lookup(self.target), inp["self"], list(inp["args"]), {})
+
+    def post(self, I, inp, r):
+        kind, tgt = inp["case"]
+        c = I.ctx
+        c.require(kind != "unknown" and tgt != "not-allowed", "an unknown pipeline / a pipeline not allowed for the backend is not handed out")
+        if kind == "object":
+            c.require(r is inp["obj"], "the registered pipeline object")
+        else:
+            c.require(len(inp["made"]) == 2 and r is inp["made"][1] and inp.get("first") is inp["made"][0] and r is not inp.get("first"), "a factory is called for every resolution: each caller gets a pipeline of its own")
+        c.require(set(inp["reg"]) == set(inp["before"]) and all(inp["reg"][k] is inp["before"][k] for k in inp["before"]), "the registry is left as it is", kind="FRAME")
+
+    def raises(self, I, inp, exc):
+        kind, tgt = inp["case"]
+        if kind == "unknown":
+            I.ctx.require(exc_is(I, exc, "SigmaPipelineNotFoundError"), f"unknown name, no file: SigmaPipelineNotFoundError (got {exc_name(exc)})")
+        else:
+            I.ctx.require(tgt == "not-allowed" and exc_is(I, exc, "SigmaPipelineNotAllowedForBackendError"), f"only a pipeline that restricts its backends to others is refused (got {exc_name(exc)})")
+        I.ctx.require(set(inp["reg"]) == set(inp["before"]) and all(inp["reg"][k] is inp["before"][k] for k in inp["before"]), "the registry is left as it is", kind="FRAME")
+
+    def frame_ok(self, I, inp, obj, name):
+        return False
